@@ -321,7 +321,7 @@ func (x *actorSystem) ensureReliableCompanion(ctx context.Context, endpoint *PID
 		return err
 	}
 
-	pid, err := x.configPID(ctx, name, newReliableController(endpoint), asSystem(), asReliableCompanion(spec), WithSupervisor(reliableCompanionSupervisor()))
+	pid, err := x.configPID(ctx, name, newReliableController(endpoint), asSystem(), asReliableCompanion(spec), WithSupervisor(reliableCompanionSupervisor()), postStartOnAttach())
 	if err != nil {
 		return err
 	}
